@@ -243,6 +243,9 @@ def execute(scn):
         path_op = {'k': 'sys', 'name': 'BSC_open', 's': [0, 0, 0, 0], 'e': [0, 3, 0, 0],
                    'in': [{'k': 'lookup', 'path': '/tmp/caf\u00e9-' + r5.text(r5.randint(1, 40)), 'vnode': r5.randrange(1, 1 << 48)}]}
         recs0 += kernel.merge([kernel.expand(path_op, 900, worlds.catalog()['ids'], 'p')], [])
+        # and a user-stack sample (a callstack of several lines)
+        smp_ = worlds.op_sample(r5, flags=8, thd=None, uhdr=(1, 3), udata=[[0x1000, 0x2000, 0x3000, 0]])
+        recs0 += kernel.merge([kernel.expand(smp_, 900, worlds.catalog()['ids'], 's')], [])
         for j, r_ in enumerate(recs0):
             r_['ts'] = 0x2001 + 3 * j
         data3, _ = worlds.build_file(wspec, [kernel.to_bytes(r_) for r_ in recs0] + [kernel.records.pack(0x3001, [1, 2, 3, 4], 900, 0xf1230001)])
@@ -265,10 +268,11 @@ def execute(scn):
                 pf.filter_process = 'PROC'
                 trf_, e6 = common.drain(lambda: pf.formatted_traces(io.BytesIO(data3)))
                 lgf_, e7 = common.drain(lambda: pf.formatted_logs(io.BytesIO(data3)))
-                outs[h] = [logs_, kev_, tr_, trc_ + lgc_, trf_ + lgf_, [type(x).__name__ for x in (e1, e2, e3, e4, e5, e6, e7) if x]]
+                cs_, e8 = common.drain(lambda: p.formatted_callstacks(io.BytesIO(data3)))
+                outs[h] = [logs_, kev_, tr_, trc_ + lgc_, trf_ + lgf_, cs_, [type(x).__name__ for x in (e1, e2, e3, e4, e5, e6, e7, e8) if x]]
         ref_h = hosts[0]
         for h in hosts[1:]:
-            for vi, view in enumerate(('formatted_logs', 'formatted_kevents', 'formatted_traces', 'coloured listings', 'listings under a process filter')):
+            for vi, view in enumerate(('formatted_logs', 'formatted_kevents', 'formatted_traces', 'coloured listings', 'listings under a process filter', 'formatted_callstacks')):
                 if outs[h][vi] != outs[ref_h][vi]:
                     a = next(((x, y) for x, y in zip(outs[ref_h][vi], outs[h][vi]) if x != y), (len(outs[ref_h][vi]), len(outs[h][vi])))
                     viols.append({'tag': 'host-dependent-text', 'sig': 'environment:' + view,
